@@ -92,6 +92,14 @@ def judge_hdlc(cfg, noise: bytes, suffix: bytes, sent, spec, ctx, case) -> bool:
     req = resync.required_hdlc(cfg, sent)
     for kind, msg in resync.judge_delivery(req, [f for f, _ in sent], returned):
         ctx.violation(f"C16:hdlc:{'stuffing' if cfg[0] else 'plain'}:{kind}", f"cfg {cfg}, noise {case['noise_kind']} ({len(noise)} B), split {spec[0]}: {msg}", dict(case, split=list(spec)))
+    # "never corrupts the frame that follows it": a clean frame that is delivered carries the payload and header fields that were sent
+    clean = {f for f, _ in sent}
+    for o in frames:
+        if o["bytes"] in clean and o["valid"]:
+            for sig, msg in hdlc_mon.check_frame_exact(o):
+                ctx.violation(f"C16:hdlc:{'stuffing' if cfg[0] else 'plain'}:clean-frame-corrupted:{sig.split(':')[-1]}", f"cfg {cfg}, noise {case['noise_kind']} ({len(noise)} B), split {spec[0]}: {msg}", dict(case, split=list(spec)))
+                break
+            ctx.count("clean_frames_compared_field_by_field")
     octs = [o for o, _ in returned]
     bad = hdlc_ref.embedded_stuffed(stream, octs) if cfg[0] else hdlc_ref.embedded_plain(stream, octs)
     if bad is not None:
